@@ -1,0 +1,23 @@
+//go:build verif
+
+package hierarchical
+
+// Contracts for the deductive checker in /verif (comment-only; compiled only under the verif tag).
+
+//@ pure func lvIds(ac *HierarchicalConjunctiveThreshold, l int) V = ac.Levels()[l].Shareholders().Iter()
+
+// Constraint 1 of the Tassa/Birkhoff construction: the structure is accepted only if EVERY identifier of a level is
+// strictly greater than EVERY identifier of all earlier levels (identifiers do not interleave across levels).
+//@ func CheckConstraints
+//@   property C02, C03
+//@   uses sets
+//@   ghostvar s0 V
+//@   ensures err == nil ==> forall l1, l2 int, a1, a2 Int :: 0 <= l1 && l1 < l2 && l2 < len(ac.Levels()) && 0 <= a1 && a1 < seqlen(lvIds(ac, l1)) && 0 <= a2 && a2 < seqlen(lvIds(ac, l2)) ==> seqat(lvIds(ac, l1), a1, int) < seqat(lvIds(ac, l2), a2, int)
+//@   loop range(ac.Levels())
+//@     invariant forall l1 int, a1 Int :: 0 <= l1 && l1 < $i && 0 <= a1 && a1 < seqlen(lvIds(ac, l1)) ==> seqat(lvIds(ac, l1), a1, int) <= prevMax && sin(sset(cummulativeIds), box(seqat(lvIds(ac, l1), a1, int)))
+//@     invariant forall l1, l2 int, a1, a2 Int :: 0 <= l1 && l1 < l2 && l2 < $i && 0 <= a1 && a1 < seqlen(lvIds(ac, l1)) && 0 <= a2 && a2 < seqlen(lvIds(ac, l2)) ==> seqat(lvIds(ac, l1), a1, int) < seqat(lvIds(ac, l2), a2, int)
+//@   loop range(level.Shareholders().Iter())
+//@     invariant forall a2 Int :: 0 <= a2 && a2 < $i ==> seqat(level.Shareholders().Iter(), a2, int) > prevMax && sin(sset(cummulativeIds), box(seqat(level.Shareholders().Iter(), a2, int)))
+//@     invariant forall y V :: sin(s0, y) ==> sin(sset(cummulativeIds), y)
+//@   ghostset before "for id := range level.Shareholders().Iter() {": s0 = sset(cummulativeIds)
+//@   assert after "slices.Sort(allIds)": forall y int :: sin(sset(cummulativeIds), box(y)) ==> y <= allIds[len(allIds)-1]
